@@ -194,6 +194,13 @@ func StdReply(m *Msg, srvMsize uint32, srvDotu bool) *Msg {
 		r.Qid = Qid{Type: 0x80, Vers: 1, Path: uint64(m.Fid)}
 	case Twalk:
 		for i, w := range m.Wname {
+			// two names the scripted tree does not have: "nope" is refused, the walk stops in front of "short"
+			if w == "nope" || (w == "short" && i == 0) {
+				return &Msg{Type: Rerror, Tag: m.Tag, Ename: "file not found", Errno: 2}
+			}
+			if w == "short" {
+				break
+			}
 			r.Wqid = append(r.Wqid, walkQid(m.Fid, i, w))
 		}
 	case Topen, Tcreate:
